@@ -1249,7 +1249,9 @@ class Evaluator:
                 return Const('<str>')
             if name == 'print':
                 return NONE
-        if mod == 'warnings' or (mod or '').startswith('logging') or 'logger' in (mod or ''):
+        if (mod or '').startswith('logging') or 'logger' in (mod or ''):
+            return ExtRef('logging', '<object>')        # loggers, handlers: calls on them have no value we use
+        if mod == 'warnings':
             return NONE
         if mod == 'object' and name == '__repr__':
             return Const('<repr>')
